@@ -208,7 +208,10 @@ func storeRun(args []string) error {
 		if sid%2 == 0 {
 			// near-twins of one identifier: different strings are different keys, however similar
 			base := pick(r, hostileIDs[:len(hostileIDs)-2])
-			twins := []string{" " + base, base + " ", base + "\n", "\t" + base, strings.ToUpper(base), base + "/", "./" + base, base + "\x00", base + base}
+			if r.Intn(3) == 0 {
+				base = pick(r, []string{"a%2Fb", "urn%3Auuid%3A1234", "my%20doc", "100%d", "%s%s", "%v", "50%"})
+			}
+			twins := []string{strings.Replace(base, "%2", "%3", 1), strings.Replace(base, "%3A", "%2A", -1), strings.Replace(base, "%20", "%09", 1), base + "%", strings.Replace(base, "%d", "%s", 1), " " + base, base + " ", base + "\n", "\t" + base, strings.ToUpper(base), base + "/", "./" + base, base + "\x00", base + base}
 			ids = []string{base, pick(r, twins), pick(r, twins)}
 		}
 		var steps []map[string]any
